@@ -200,6 +200,40 @@ theorem fullscan_highest (fullOnly : Bool) (best target : Nat) (replies : List (
       intro j hj1 hj2 hsame
       exact hla (hmono _ j hj1 hj2 hsame)
 
+/-- The same with the peer's side spelled out: the finder hands the peer *all* anchors of the local
+chain (`getAnchors` passes the chain service's list on unchanged, and `LastAnchor` is the lowest
+of them), and an honest peer answers with the highest anchor that is on its chain
+(`honestLightReply`). If that answer is "none", the ancestor handed on is the highest shared block.
+(A finder that hands the peer only some of the anchors while keeping the bound from the lowest one
+breaks exactly this; the harness checks the list handed over on chains long enough to have all 32
+anchors.) -/
+theorem fullscan_highest_honest (best target : Nat) (probe : Nat → Probe) (a : Nat)
+    (hok : ∀ i, i ≤ best → probe i = .same ∨ probe i = .diff)
+    (hloc : ∀ i, best < i → probe i = .localErr)
+    (hmono : ∀ i j, i ≤ j → j ≤ best → probe j = .same → probe i = .same)
+    (hnone : honestLightReply best (fun i => decide (probe i = .same)) = none)
+    (h : finder false best target [honestLightReply best (fun i => decide (probe i = .same))] probe = .ancestor a) :
+    a ≤ best ∧ probe a = .same ∧ ∀ j, a < j → j ≤ best → probe j ≠ .same := by
+  apply fullscan_highest false best target _ probe a hok hloc hmono ?_ h
+  right
+  rw [hnone]
+  refine ⟨by simp [lightAccept], ?_⟩
+  -- the lowest anchor is one of the anchors, and none of them is shared
+  have hne : anchors best ≠ [] := by
+    unfold anchors maxAnchors
+    rw [show (32 : Nat) = 31 + 1 from rfl, anchorsFrom]
+    exact List.cons_ne_nil _ _
+  have hmem : lastAnchorOf best ∈ anchors best := by
+    unfold lastAnchorOf
+    cases hl : (anchors best).getLast? with
+    | none =>
+      have : anchors best = [] := by simpa using hl
+      exact absurd this hne
+    | some x => simpa using List.mem_of_getLast? hl
+  unfold honestLightReply at hnone
+  have := List.find?_eq_none.mp hnone _ hmem
+  simpa using this
+
 /-! ## Hash sets -/
 
 /-- **The hash fetcher hands on only hash sets that continue the previous one.** A reply is
